@@ -152,6 +152,22 @@ def gen_plan(seed: int, cls: str) -> dict:
         else:
             op = {'op': 'read', 'src': ro.choice(SINKS_PATH), 'via': 'func', 'pathkind': 'str'}  # maybe absent
         ops.append(op)
+    # scenario: a multi-document YAML stream written by successive write_yaml calls, then read with from_yaml_all
+    if 'yaml' in knobs['fmts'] and values and ro.random() < 0.35:
+        by_type = {}
+        for vi, v in enumerate(values):
+            by_type.setdefault(canon([v['t'], v['custom']]), []).append(vi)
+        cands = sorted(by_type.values(), key=lambda l: (-len(l), l))
+        group = cands[0]
+        sink = ro.choice(SINKS_STREAM + (['p0'] if ro.random() < 0.2 else [])) if cls != 'realdisk' else 's0'
+        chain = []
+        ndocs = ro.choice([1, 2, 2, 3, 4]) if sink != 'p0' else 1
+        for j in range(ndocs):
+            chain.append({'op': 'write', 'sink': sink, 'val': ro.choice(group), 'fmt': 'yaml', 'via': ro.choice(['func', 'method']),
+                          'opts': gen_yaml_opts(ro), 'pathkind': 'str', 'passty': True, 'append': j > 0})
+        chain.append({'op': 'read_all', 'src': sink, 'via': ro.choice(['func', 'method']), 'pathkind': ro.choice(['str', 'Path'])})
+        pos = ro.randrange(len(ops) + 1)
+        ops[pos:pos] = chain
     if cls == 'faulty':
         for op in ops:
             if rf.random() < 0.45:
@@ -677,18 +693,28 @@ class Exec:
                        'raised:' + type(raised).__name__ if raised else 'ok', fired)
         if state == 'torn':
             self.count('read_of_torn')
+        if state == 'absent' and sink.obj is None and sink.name != 'str0' and not err_fired:
+            # the path does not exist: the reader must say so, not invent a value
+            if raised is None:
+                raise Violation('read_absent_returned', f"{op['op']} of a path that does not exist returned {mask(repr(ret))[:80]}")
+            if not isinstance(raised, FileNotFoundError):
+                self.count('read_absent_other_exception')
+            self.count('read_absent_raised')
+            return
         if raised is not None:
             if err_fired:
                 self.count('read_failed_' + self._classify_exc(raised, faults))
                 return
             if not strict:
                 self.count('read_nonstrict_raised')
+                self.count('read_nonstrict_raised:' + state + ':' + str(min(len(docs), 2)) + ':' + type(raised).__name__)
                 return
             raise Violation('unexpected_exception',
                             f"{op['op']} of an intact {fmt} source raised {type(raised).__name__}: {mask(str(raised))[:200]}")
         if not strict:
             self.count('read_nonstrict_returned')
             return
+        self.count('read_strict_checked')
         if read_all:
             self.count('multi_doc_n', 0)
             self.count(f'multi_doc_n{min(len(docs), 4)}')
